@@ -19,7 +19,7 @@ VERIF = os.path.dirname(os.path.dirname(os.path.abspath(__file__)))
 REPO = os.environ.get("VERIF_REPO", "/repo")
 CACHE = os.path.join(VERIF, ".cache")
 DRIVER = os.path.join(VERIF, "driver", "target", "release", "barter-facts-driver")
-FACTS_VERSION = "5"
+FACTS_VERSION = "6"
 MEMBERS = ["barter", "barter-data", "barter-execution", "barter-instrument", "barter-integration"]
 CRATES = ["barter", "barter_data", "barter_execution", "barter_instrument", "barter_integration"]
 
@@ -138,9 +138,14 @@ class Facts:
                         key = rec["def"]
                         if rec.get("test"):
                             rec["_test"] = True
-                        # lib and test-harness builds of the same crate share defs: prefer lib
-                        if key in self.bodies and rec.get("_harness"):
-                            continue
+                        # def_path_str is not unique (e.g. several serde `__DeserializeWith` helper impls inside
+                        # one derive): keep every body, disambiguating later ones with a #n suffix
+                        if key in self.bodies:
+                            n = 2
+                            while "%s#%d" % (key, n) in self.bodies:
+                                n += 1
+                            key = "%s#%d" % (key, n)
+                            rec["def"] = key
                         rec["_file"] = os.path.basename(f)
                         self.bodies[key] = rec
                     elif k == "adt":
